@@ -1,5 +1,6 @@
 """Shared helpers for the generated-program engines (DESIGN.md §2/E3-E5)."""
 import os
+import re
 import shutil
 import sys
 from concurrent.futures import ThreadPoolExecutor
@@ -40,6 +41,35 @@ class Ctx:
     def run_many(self, bins, args=(), timeout=1800, workers=None):
         with ThreadPoolExecutor(max_workers=workers or kv.NCPU) as ex:
             return list(ex.map(lambda b: self.run(b, args, timeout), bins))
+
+
+WRAP_TOML = """[package]
+name = "kv_gen_wrap_%s"
+version = "0.0.0"
+edition = "2021"
+publish = false
+
+[workspace]
+
+[dependencies.konst]
+path = "/repo/konst"
+default-features = false
+features = ["cmp", "iter", "parsing_proc", "alloc", "rust_latest_stable"]
+"""
+
+
+def miri_run_program(cx, src, name, timeout=3600, ignore_leaks=False):
+    """Run one generated program file under Miri through a throw-away cargo wrapper crate whose
+    src/main.rs is a copy of the generated file. Returns (rc, stdout, stderr)."""
+    d = cx.path("miri_" + name)
+    os.makedirs(os.path.join(d, "src"), exist_ok=True)
+    with open(os.path.join(d, "Cargo.toml"), "w") as f:
+        f.write(WRAP_TOML % re.sub(r"[^A-Za-z0-9_]", "_", name))
+    shutil.copy("/repo/Cargo.lock", os.path.join(d, "Cargo.lock"))
+    shutil.copy(src, os.path.join(d, "src", "main.rs"))
+    flags = "-Zmiri-disable-isolation" + (" -Zmiri-ignore-leaks" if ignore_leaks else "")
+    return kv.sh(["cargo", "+nightly", "miri", "run", "--offline", "-q", "--manifest-path", os.path.join(d, "Cargo.toml")], timeout=timeout,
+                 env={"MIRIFLAGS": flags, "CARGO_TARGET_DIR": os.path.join(kv.TARGET, "miri-gen")})
 
 
 def rs_str(s):
